@@ -1,4 +1,5 @@
 import FastraceModel.Driver.Codec
+import FastraceModel.Driver.Report
 open Fastrace.Driver
 
 /-- line-protocol driver: first line `mode <m>`, then one request per line -/
@@ -14,4 +15,5 @@ def main : IO Unit := do
   let first ← stdin.getLine
   match words first with
   | ["mode", "codec"] => loop stdin stdout codecStep
+  | ["mode", "report"] => loop stdin stdout reportStep
   | _ => IO.eprintln "fmodel: unknown mode"; IO.Process.exit 2
